@@ -12,6 +12,8 @@
  *              T(i,ok)  the send of path i completes (ok=1: socket took the
  *                       message; ok=0: NNG_ECONNRESET, message stays on the aio)
  *              X        the application cancels the device aio
+ *              Q(i)     the receive of path i fails while the receive of the other path has
+ *                       completed successfully but its callback has not run yet
  * checked after every event:
  *   - a received message is handed to the *other* socket's send as the same
  *     message object with header and body unchanged, never to its source;
@@ -303,6 +305,36 @@ ev_tx(int i, int ok)
 	monitor();
 }
 
+/* Q(i): the receive of path i fails at the moment the receive of the other path has already completed
+ * successfully (its completion callback has not run yet).  The failing path's callback runs first and
+ * aborts the other path, whose operation is already finished: its result stands (a finished operation
+ * is not cancelled), so its callback finds a successfully received message on a device that is shutting
+ * down - the message must be released, not forwarded, not leaked. */
+static void
+ev_rx_race(int i)
+{
+	KNEED(NPATH == 2 && i < NPATH && src_of[i]->recv_aio == &dev->paths[i].aio && src_of[1 - i]->recv_aio == &dev->paths[1 - i].aio);
+	if (kstop)
+		return;
+	int       o  = 1 - i;
+	nni_aio  *ai = src_of[i]->recv_aio, *ao = src_of[o]->recv_aio;
+	nni_msg  *m  = kmsg(2);
+	src_of[i]->recv_aio = NULL;
+	src_of[o]->recv_aio = NULL;
+	if (!have_err && !user_cancelled) {
+		have_err  = 1;
+		first_err = NNG_ECLOSED;
+	}
+	nni_aio_finish_error(ai, NNG_ECLOSED); /* queued first: its callback runs first */
+	nni_aio_finish_msg(ao, m);
+	kquiesce();
+	CHECK(dst_of[o]->send_aio != &dev->paths[o].aio, "a message received while the device shuts down is not forwarded");
+	for (int k = 0; k < NPATH; k++)
+		inflight[k] = NULL;
+	WITNESS("receive completed while the other path failed");
+	monitor();
+}
+
 static void
 ev_cancel(void)
 {
@@ -330,6 +362,7 @@ ev_cancel(void)
 #define R(i, ok) if (!kstop) ev_rx(i, ok);
 #define T(i, ok) if (!kstop) ev_tx(i, ok);
 #define X if (!kstop) ev_cancel();
+#define Q(i) if (!kstop) ev_rx_race(i);
 #ifndef SKEL
 #define SKEL R(0, 1) T(0, 1) X
 #endif
